@@ -166,6 +166,11 @@ impl CustomAccountInterface for TimelockController {
         context_meta: Vec<OperationMeta>,
         auth_contexts: Vec<Context>,
     ) -> Result<(), Self::Error> {
+        // every authorized context needs its own operation meta: `zip` below
+        // would silently skip the contexts a shorter list leaves uncovered
+        if context_meta.len() != auth_contexts.len() {
+            panic_with_error!(&e, TimelockError::Unauthorized)
+        }
         for (context, meta) in auth_contexts.iter().zip(context_meta) {
             match context.clone() {
                 Context::Contract(ContractContext { contract, fn_name, args }) => {
